@@ -82,7 +82,15 @@ func Solve(script string, quantified bool, timeoutS int, scratch string, tag str
 			_ = cmd.Run()
 			el := time.Since(t0).Seconds()
 			txt := out.String()
-			first := strings.TrimSpace(strings.SplitN(txt, "\n", 2)[0])
+			first := ""
+			for _, ln := range strings.Split(txt, "\n") {
+				ln = strings.TrimSpace(ln)
+				if ln == "" || strings.HasPrefix(ln, "WARNING") {
+					continue
+				}
+				first = ln
+				break
+			}
 			st := "error"
 			switch {
 			case first == "unsat":
